@@ -1,6 +1,6 @@
 (* engine c17: runs the Refcount model on the scripts of harness/c17_io.c (sub-engine "io") and on the open/close
    skeleton of harness/c17_mll.c (sub-engine "mll").
-   io script:   variant cur|old ; fuel <n> ; world <kinds> <links> ; open <n> <r|m> ; walk|node <c> <n1> .. ; close <c>
+   io script:   variant cur|old ; fuel <n> ; world <kinds> <links a>b | a>b!> ; open <n> <r|m> ; walk|node <c> <n1|n1!> .. ; close <c>
    io output:   "<result> | io <num_open> <num_iolist> <slots> | adf <maximum_files> <in_use:fd:name:links;..> | fds <ledger size>"
                 or "diverge" when ADFI_close_file runs out of fuel (the C: unbounded recursion)
    mll script:  variant cur|old ; open <h> <cgiofail|latefail|ok> ; close <h> <ok|fail>   (h = handle label of the harness)
@@ -33,8 +33,12 @@ let dump (s : io) =
   Buffer.add_string b (Printf.sprintf " | fds %d" (List.length s.io_adf.ledger));
   Buffer.contents b
 
+let parse_step x =
+  let n = String.length x in
+  if n > 0 && x.[n - 1] = '!' then (i2n (int_of_string (String.sub x 0 (n - 1))), true) else (i2n (int_of_string x), false)
+
 let run_io () =
-  let v = ref Cur and fuel = ref 20000 and w = ref { kinds = []; wlinks = [] } and s = ref io_init in
+  let v = ref Cur and fuel = ref 20000 and w = ref { kinds = []; wlinks = []; wdlinks = [] } and s = ref io_init in
   let stop = ref false in
   (try while not !stop do
     let line = input_line stdin in
@@ -44,15 +48,16 @@ let run_io () =
     | ["fuel"; n] -> fuel := int_of_string n
     | ["world"; ks; ls] ->
         let kinds = List.map kind_of_string (String.split_on_char ',' ks) in
-        let wl = if ls = "-" then [] else List.map (fun e -> match String.split_on_char '>' e with
-                   | [a; b] -> (i2n (int_of_string a), i2n (int_of_string b)) | _ -> failwith "link") (String.split_on_char ',' ls) in
-        w := { kinds = kinds; wlinks = wl }; s := io_init;
+        let all = if ls = "-" then [] else List.map (fun e -> match String.split_on_char '>' e with
+                   | [a; b] -> let (bn, d) = parse_step b in ((i2n (int_of_string a), bn), d) | _ -> failwith "link") (String.split_on_char ',' ls) in
+        let wl = List.map fst (List.filter (fun (_, d) -> not d) all) and wd = List.map fst (List.filter (fun (_, d) -> d) all) in
+        w := { kinds = kinds; wlinks = wl; wdlinks = wd }; s := io_init;
         print_string ("world ok" ^ dump !s ^ "\n")
     | op :: rest when List.mem op ["open"; "walk"; "node"; "close"] ->
         let o = (match op, rest with
           | "open", [n; m] -> OOpen (i2n (int_of_string n), m = "m")
           | "close", [c] -> OClose (i2n (max 0 (int_of_string c)))
-          | _, c :: ch -> OWalk (i2n (max 0 (int_of_string c)), List.map (fun x -> i2n (int_of_string x)) ch)
+          | _, c :: ch -> OWalk (i2n (max 0 (int_of_string c)), List.map parse_step ch)
           | _ -> failwith "op") in
         (match step !v (i2n !fuel) !w !s o with
          | None -> print_string "diverge\n"; stop := true
